@@ -621,7 +621,10 @@ def ord6(ctx, pid):
             # reversed(range(size)) and bit_length(), and says so rather than calling the other shape wrong
             ctx.unsure(cst, f.loc(), "the branch point is computed by a `while` loop the rule cannot interpret (%s)" % by_rule[r][0][:80], rule=r)
         elif r in by_rule:
-            ctx.bad(cst, f.loc(), by_rule[r][0], rule=r, witness={"problems": sorted(set(by_rule[r]))})
+            # a branch point taken from a floating-point logarithm is wrong as such (log2 of an int beyond 2**53 is
+            # rounded): the report does not depend on reading the rest of the expression
+            firm = any("log2(" in w_ or "log(" in w_ for w_ in by_rule[r]) or any(isinstance(n_, ast.Attribute) and n_.attr in ("log2", "log") for n_ in ast.walk(f.node))
+            ctx.bad(cst, f.loc(), by_rule[r][0], rule=r, witness={"problems": sorted(set(by_rule[r])), "firm": firm})
         else:
             ctx.ok(cst, f.loc(), okmsg, rule=r)
     # path_diff provenance
